@@ -208,6 +208,21 @@ theorem C17_exact_cells :
     lagOffset (some "wow") (some "day") = 7 ∧ lagOffset (some "wow") (some "week") = 1 ∧
     lagOffset (some "dod") (some "day") = 1 := by decide +kernel
 
+/-- nominal length in days of the month-based comparison periods, as `_calculate_lag_offset` documents them -/
+def nominalDays : String → Option Nat | "mom" => some 30 | "qoq" => some 90 | "yoy" => some 365 | _ => none
+
+/-- the month-based comparisons on day / week rows are the DECLARED approximation: the whole number of periods nearest to
+the nominal length (30 / 90 / 365 days), never less than one period. (That this is not the calendar period is F34.) -/
+def nearestIn (ct g : String) : Bool :=
+  match nominalDays ct, granDays g with
+  | some n, some u =>
+    let k := lagOffset (some ct) (some g)
+    decide (1 ≤ k) && decide (2 * (k * u) ≤ 2 * n + u) && decide (2 * n ≤ 2 * (k * u) + u)
+  | _, _ => true
+
+theorem C17_approximate_cells_nearest :
+    ∀ ct ∈ ["mom", "qoq", "yoy"], ∀ g ∈ ["day", "week"], nearestIn ct g = true := by decide +kernel
+
 /-- `prior_period` is one period back at every granularity -/
 theorem C17_prior_period_is_one :
     ∀ g ∈ ["day", "week", "month", "quarter", "year"], lagOffset (some "prior_period") (some g) = 1 := by decide +kernel
